@@ -37,8 +37,19 @@ class Prop:
         return []
 
 
+def pinned_theorems(pid):
+    """the theorem names of a property = the names pinned in Properties/Pin<id>.v"""
+    import os
+    path = os.path.join(os.path.dirname(os.path.dirname(os.path.abspath(__file__))), "coq", "Properties", "Pin%s.v" % pid)
+    if not os.path.exists(path):
+        return []
+    return re.findall(r"^Check %s\.(\w+)" % pid, open(path).read(), flags=re.M)
+
+
 def register(cls):
-    PROPS[cls.id] = cls()
+    obj = cls()
+    obj.theorems = pinned_theorems(cls.id)
+    PROPS[cls.id] = obj
     return cls
 
 
@@ -154,6 +165,14 @@ class C02(Prop):
         for _ in range(n):
             ws = supported_expr(rng, rng.randint(0, 5))
             out.append((PC(gen.join_words(rng, ws)), "random-supported"))
+        pool = ["foo", "core", "README", "a*", "x?y", "Dir/f"]
+        for _ in range(n // 10):
+            k = rng.randint(2, 5)
+            items = ["%s %s" % (rng.choice(["-name", "-iname", "-path", "-ipath"]), rng.choice(pool)) for _ in range(k)]
+            s_ = items[0]
+            for w in items[1:]:
+                s_ += rng.choice([" ", " -o ", " -a ", " ! "]) + w
+            out.append((PC(s_ + rng.choice(["", " -print", " -print0", " -quit"])), "shared-patterns"))
         return out
 
     def nontrivial(self, case, line):
@@ -223,6 +242,14 @@ class C03(Prop):
             out.append((PC("-name " + "a" * n), "long"))
             out.append((PC(" -o ".join(["-true"] * (n // 8))), "long"))
             out.append((PC("-printf '" + "%p\\n" * (n // 4) + "'"), "long"))
+        for ch in ["é", "€", "☃", "\U0001F600"]:
+            for pre in ["", "x", "xy", "xyz", "-", "-size x", "-amin +", "-true -o x", "-name a -perm "]:
+                for k in [10, 16, 23, 24, 25, 30, 47, 48, 49, 64]:
+                    out.append((PC(pre + ch * k), "long-non-ascii"))
+                    out.append((PC(pre + ch * k + " -print"), "long-non-ascii"))
+        for v in range(0o370, 0o1000, 5):
+            out.append((PC("-printf 'a\\%03ob\\n'" % v), "octal-escape"))
+            out.append((PC("-fprintf f '\\%03o'" % v), "octal-escape"))
         out += [(PC(s), "seed-corpus") for s in ["", " ", "nope", "-perm 17777", "-printf '\\1234567'", "-maxdepth 3",
                                                  "-size 18014398509481984k", "-printf '%'", "-printf '\\", "'", "\"", "-name 'x"]]
         return out
@@ -300,6 +327,14 @@ class C04(Prop):
         for esc in ["\\042", "\\134", "\\176", "\\045", "\\101", "\\000", "\\777", "\\\\", "\\", "\\n\\t\\a\\b\\f\\r\\v\\0"]:
             out.append((PC("-printf 'x" + esc + "y'"), "octal-escape"))
             out.append((PC("-printf '" + esc + "'"), "octal-escape"))
+        for wd in gen.source_dictionary():
+            q = quote_any(wd)
+            if q:
+                for kw in ["-name", "-pool", "-fprint", "-xattr"]:
+                    out.append((PC(kw + " " + q), "source-dictionary"))
+                if "%" not in wd:
+                    out.append((PC("-printf " + q), "source-dictionary"))
+                out.append((PC("-print", wd), "source-dictionary"))
         n = 3000 if tier == "quick" else 60000
         for _ in range(n):
             s = "".join(rng.choice(C04_ALPHABET + list("bc*?[")) for _ in range(rng.randint(4, 12)))
@@ -478,6 +513,13 @@ class C06(Prop):
             self.groups.append([P(v) for v in vs])
             for v in vs:
                 out.append((P(v), "variant"))
+        for v in ["it's", 'a"b', "x y", "a'b c", "p)q", "tab\there"]:
+            spell = [q for q in ["'" + v + "'" if "'" not in v else None, '"' + v + '"' if '"' not in v else None,
+                                 v if not any(c in v for c in " \t\r\n)") and v[0] not in "\"'" else None] if q]
+            for kw in ["-name", "-path", "-fprint", "-pool"]:
+                self.groups.append([P("%s %s -print" % (kw, q)) for q in spell] + [P("%s   %s\t-a -print" % (kw, spell[0]))])
+                for c in self.groups[-1]:
+                    out.append((c, "quote-variant"))
         blanks = ["", " ", "\t", "\n", "\r", " \t\r\n ", "   ", "-true"]
         self.groups.append([P(b) for b in blanks])
         for b in blanks:
@@ -1146,12 +1188,22 @@ class C20(Prop):
 
     def cases(self, tier, rng):
         out = []
+        dic = gen.source_dictionary()
         for _ in range(2500 if tier == "quick" else 60000):
             ws = gen.expr_words(rng, rng.randint(0, 3), hostile=0.1)
+            if dic and rng.random() < 0.3:
+                ws = ws + [rng.choice(["-name", "-iname", "-pool", "-fprint"]), "'" + rng.choice(dic).replace("'", "") + "'"]
             k = rng.randint(2, 5)
             paths = [rng.choice(HOSTILE_PATHS) for _ in range(k)]
-            if rng.random() < 0.3:
+            r = rng.random()
+            if r < 0.3:
                 paths[1] = paths[0]
+            elif r < 0.6:
+                # paths that some notion of path equality would identify
+                base = rng.choice(["/dev/mapper/mdt0", "/mnt/mdt", "/dev/sdb", "rel/path"])
+                variants = [base, base + "/", base.replace("/", "//", 1), base.replace("/", "/./", 1), base + "/.", base.upper(), base + " "]
+                paths = [rng.choice(variants) for _ in range(k)]
+                paths[0] = base
             out.append(("R %s %d %s" % (hx(" ".join(ws)), k, " ".join(hx(p) for p in paths)), "history-%d" % k))
         return out
 
